@@ -294,12 +294,18 @@ impl<D: DataMut> ReaderFrom for MatZnx<D> {
         let new_cols_out: usize = reader.read_u64::<LittleEndian>()? as usize;
         let len: usize = reader.read_u64::<LittleEndian>()? as usize;
 
-        let expected_len: usize = new_rows * new_cols_in * new_n * new_cols_out * new_size * size_of::<i64>();
-        if expected_len != len {
+        // Checked: the header is untrusted and the product may not fit a usize.
+        let expected_len: Option<usize> = new_rows
+            .checked_mul(new_cols_in)
+            .and_then(|x| x.checked_mul(new_n))
+            .and_then(|x| x.checked_mul(new_cols_out))
+            .and_then(|x| x.checked_mul(new_size))
+            .and_then(|x| x.checked_mul(size_of::<i64>()));
+        if expected_len != Some(len) {
             return Err(std::io::Error::new(
                 std::io::ErrorKind::InvalidData,
                 format!(
-                    "MatZnx metadata inconsistent: rows={new_rows} * cols_in={new_cols_in} * n={new_n} * cols_out={new_cols_out} * size={new_size} * 8 = {expected_len} != data len={len}"
+                    "MatZnx metadata inconsistent: rows={new_rows} * cols_in={new_cols_in} * n={new_n} * cols_out={new_cols_out} * size={new_size} * 8 = {expected_len:?} != data len={len}"
                 ),
             ));
         }
